@@ -2,8 +2,10 @@
 
 Model: coq/theories/Subfield/IntAdapters.v (integer serializers); per-key instances are generated
 from the live registry (harness/translate/c09_registry.py -> coq/gen/C09_gen.v).  Byte-payload
-serializers, the date adapters and the quantised TimeDilation adapter are decided by the
-implementation-level oracle below only.  The oracle also probes that decoding is a function of
+serializers: the two byte clauses are theorems over C08's combinator embedding (Spec/SpecSound*.v), instantiated
+per (key, context value) from the live registry (harness/translate/c09_payload.py -> coq/gen/C09_payload_gen.v)
+and tied by corr_payload_model below; keys outside the fragment / not translated, the date adapters and the
+purity probe are decided by the implementation-level oracle only.  The oracle also probes that decoding is a function of
 (serializer, context values, wire value) - no result shared between calls, no dependence on what a
 caller did to an earlier result (harness/translate/c09_purity.py, check_purity below)."""
 from __future__ import annotations
@@ -17,11 +19,11 @@ import subprocess
 import sys
 
 from harness.common.framework import CorrResult, COQ, VERIF
-from harness.translate import c09_purity, c09_registry, c09_values
+from harness.translate import c09_payload, c09_purity, c09_registry, c09_values
 
 PROP_ID = "C09"
 COQ_PROPS = "theories/Props/C09.v"
-COQ_EXTRA = ["gen/C09_gen.v", "gen/C09_quant_gen.v", "gen/C09_date_gen.v"]
+COQ_EXTRA = ["gen/C09_gen.v", "gen/C09_quant_gen.v", "gen/C09_date_gen.v", "gen/C09_payload_gen.v"]
 EXTRACT = ("theories/Extract/ExC09.v", "c09_driver.ml")
 EXTRACT_Z = True
 TRUSTED = [
@@ -45,9 +47,30 @@ TRUSTED = [
     "faithful to Python's exact int/int division only for |val| < 2^53 or representable val; it is compared with the "
     "implementation under TZ=UTC on generated cases each run; real zones (tz database) are not modelled - the DST witness uses "
     "a hand-written one-transition zone; the three date defect classes remain known findings",
-    "NOT proved, decided by the implementation-level oracle only (generated values, per-byte boundary sweep, fuzz): all "
-    "byte-payload serializers (TextureEntry, ExtraParams, NameValue, ObjectUpdateCompressed data, particle systems, transfer "
-    "params, IM buckets, bitmaps, ...)",
+    "byte-payload clauses, PROVED part: the combinator embedding of C08 (Spec/Spec.v: ser / de / wf / domb, modelled by hand, tied "
+    "to serialization.py by C08's correspondence) + Spec/SpecSound.v (sound_frag / canon / the wrapper view pl_decode = "
+    "BufferReader(...).read(template) + CHECK_TRAILING_BYTES, simple_* = EMPTY_IS_NONE, modelled by hand).  Theorems "
+    "C09_payload_own_output (every wf spec), C09_decoder_sound / C09_payload_fixed_point / _pass_idempotent / _accepted_reencodes / "
+    "_simple_* (every wf spec inside sound_frag, every byte string of bytes < 256, both endiannesses, both forms), instantiated per "
+    "run at every (registered byte-payload key, context value) whose live spec tree translates (harness/translate/c09_payload.py, "
+    "reusing C08's fail-closed translator) and lies inside the fragment: gen/C09_payload_gen.v re-computes wf / sound_frag / canon / "
+    "simple_ok by vm_compute (the Python mirror only predicts the booleans).  The exact lists (proved / outside the fragment / not "
+    "translated) are in this evidence file's notes",
+    "byte-payload clauses, TIE: per run, the real registered serializer (ser.deserialize / ser.serialize with a Block holding the "
+    "context value) against the extracted Spec.de then Spec.ser (C08's driver, built privately) on own output, per-byte sweeps, "
+    "truncations / extensions / mutations of it - accepted or not, decoded value, re-encoded bytes.  What the tie does NOT cover: the "
+    "wrapper's choice of the sub-template from the Block (TEMPLATES[block[ENUM_FIELD]], _build_template(flags), TransferInfo's "
+    "size-based guess) is exercised (the real wrapper runs) but the model is handed the tree of that context value by the harness; "
+    "EMPTY_IS_NONE is applied by the harness as in SpecSound.simple_decode; payloads that make the real reader seek backwards "
+    "(negative length prefix) are skipped; float members: the model keeps the 32/64 bits, re-encodings of values holding a NaN are "
+    "not compared (CPython quiets signalling NaNs); quantised / fixed-point members are wire ints in the model (AOpaqueInt) - that "
+    "decode-then-encode of the real adapter is the identity on its wire ints is C10's subject and is re-checked here on every compared "
+    "payload (a lossy raw shows up as a re-encoded-bytes disagreement)",
+    "byte-payload clauses, NOT proved (implementation-level oracle only: generated values, per-byte boundary sweep, fuzz): keys whose "
+    "tree is not translated (TextureEntry x5: TEExceptionField; ExtraParams: DictAdapter; NameValue: NameValuesSerializer; "
+    "ObjectUpdateCompressed.Data: ObjectStateAdapter + name-values; ParcelProperties.Bitmap: BitmapAdapter, no spec tree) and "
+    "translated trees outside the fragment (BitField members: ObjectExtraParams FLEXIBLE / LIGHT_IMAGE / a third sub-template, "
+    "ParcelOverlay.Data); for these the model-vs-implementation comparison still runs where a tree exists, the theorems do not apply",
     "the integer theorems are about integers as Python ints; packing them into the variable's bytes is C01/C02's subject",
     "the Coq model treats decode / encode as functions of (serializer, context values, wire value); that the implementation's "
     "decode really is one (no result shared between calls, no dependence on what earlier callers did to earlier results) is NOT "
@@ -58,6 +81,38 @@ TRUSTED = [
 ]
 
 MAX_REPORT = 3          # violations reported per (key, class)
+
+# ---- B5: TextureEntry (model Spec/TexEntry.v, harness/translate/c09_te.py) ----
+from harness.translate import c09_te  # noqa: E402
+COQ_EXTRA = COQ_EXTRA + ["gen/C09_te_gen.v"]
+TRUSTED = TRUSTED + [
+    "TextureEntry payloads (the 5 registered *.TextureEntry keys; this REFINES the 'TextureEntry x5: not translated' remark above): "
+    "the FRAMING is modelled by hand in Spec/TexEntry.v - TEFaceBitfield (base-128 big-endian groups, continuation bit, Python ints "
+    "as N: no coded maximum), TEExceptionField (default, (bitfield, value)*, NUL written BEFORE every non-first field and consumed by "
+    "the PREVIOUS field's loop, end of window, optional field absent at EOF, dict insertion order with overwrite-in-place), "
+    "se.Template over the dataclass fields, TypedBytesGreedy / TypedByteArray(U32) with empty_is_none + trailing-bytes check, "
+    "SimpleSubfieldSerializer(EMPTY_IS_NONE) - and PROVED for every element codec satisfying the stated laws (C09_te_*: bitfield "
+    "round trip for all face numbers + prefix condition, field round trip, whole-entry round trip incl. absent optional tail, one-pass "
+    "fixed point for every accepted payload, wrappers; each unqualified statement refuted by a witness)",
+    "TextureEntry, what is ASSUMED: the element serializers (se.UUID, Color4, se.F32, TE_S16_COORD, PackedTERotation, "
+    "BUMP_SHINY_FULLBRIGHT, MEDIA_FLAGS, QuantizedFloat(U8)) are NOT modelled here; the theorems take their laws as hypotheses "
+    "(codec_rt, codec_sound, non-empty encodings; fixed size is not needed) and the extracted instance carries an element as its k "
+    "wire bytes.  Known exception to codec_sound: PackedTERotation raw -32768 (known finding c09-te-rotation-min / C10).  Per run the "
+    "translator reads first / optional / calc_size() of every field from the live TE_SERIALIZER (fail closed on any other class or "
+    "wrapper configuration), gen/C09_te_gen.v re-checks layout_ok and instantiates the theorems at that layout, and a table of live "
+    "payloads is decoded / re-encoded by the model inside Coq (vm_compute)",
+    "TextureEntry, TIE: extracted model (separate driver coq/ocaml/c09te_driver.ml, built privately per run) vs the real classes: "
+    "TEFaceBitfield on all tuples over faces 0..8, boundaries up to 1000 and all byte strings of length <= 1 (2 in part; all in "
+    "thorough); synthetic entries built with the real _te_field / se.Dataclass / wrappers over U8 / U32 / UUID elements in an "
+    "exhaustive small scope (object-form values and every byte string over {00,01,02,80,81,ff} up to length 4/6); the live "
+    "TE_SERIALIZER and both registered subfield serializer classes on random values, truncations and mutations; object and plain-data "
+    "form; compared: serialize bytes / exception, accept / reject, decoded structure with dict order, bytes left, re-encoding.  Elements "
+    "are compared through the real element spec applied to the model's raw element outside any TE code.  Python exceptions are only "
+    "compared as accept/reject; lazy_object_proxy results are forced",
+    "TextureEntry, NOT covered: TextureEntryCollection.realize / from_tes (only realize_face's merge refutation is stated), ParseContext "
+    "plumbing, dict values that are not dicts, keys that are not tuples of non-negative ints",
+]
+# ---- end B5 ----
 
 
 # =====================================================================================
@@ -88,7 +143,33 @@ def generate(ctx):
     if misfit:
         ctx.notes.append("informational, not a violation of C09: member values the variable's wire type cannot hold "
                          "(those names can be written but never read back): " + "; ".join(misfit))
+    # byte-payload keys: spec trees per (key, context value) as Spec terms + fragment obligations
+    ents = c09_payload.entries(reg)
+    obls += c09_payload.write_gen(os.path.join(COQ, "gen", "C09_payload_gen.v"), ents)
+    ctx.notes.append(payload_note(ents))
+    obls += c09_te.emit(ctx)        # B5: live TextureEntry layout + payload table -> gen/C09_te_gen.v
     return obls
+
+
+def payload_note(ents):
+    sm = c09_payload.summary(ents)
+    outside = ["%s (%s)" % (en.label, c09_payload.why_outside(en.node)) for en in ents if en.node is not None and not en.inside]
+    untr = {}
+    for en in ents:
+        if en.node is None and en.spec is not None:
+            untr.setdefault(en.keytxt, en.why)
+    nospec = sorted({en.keytxt for en in ents if en.spec is None and not any(o.keytxt == en.keytxt and o.spec is not None for o in ents)})
+    return ("byte-payload clauses: %d registered byte-payload keys, %d (key, context value) pairs, %d with a spec tree, %d translated to "
+            "Spec terms, %d inside the proved fragment (wf && sound_frag && simple_ok; %d of them canonical = every accepted payload is "
+            "its own fixed point): C09_payload_registry_fixed_point / _own_output are instantiated at exactly these.  Keys with EVERY "
+            "context value proved (%d): %s.  Keys partly proved (%d): %s.  Translated but OUTSIDE the fragment, oracle only (%d): %s.  "
+            "NOT translated, oracle only (%d keys): %s.  No spec tree at all (adapter-only serializer), oracle only: %s"
+            % (len(sm["per_key"]), len(ents), sum(1 for en in ents if en.spec is not None), sum(1 for en in ents if en.node is not None),
+               sum(1 for en in ents if en.inside), sum(1 for en in ents if en.inside and en.canon),
+               len(sm["full"]), "; ".join(sm["full"]), len(sm["partial"]),
+               "; ".join("%s %d/%d" % (k, sm["per_key"][k]["inside"], sm["per_key"][k]["with_spec"]) for k in sm["partial"]),
+               len(outside), "; ".join(outside), len(untr), "; ".join("%s (%s)" % kv for kv in sorted(untr.items())),
+               "; ".join(nospec) or "none"))
 
 
 # =====================================================================================
@@ -917,6 +998,279 @@ def classify_bytes(key, clause, ser=None, block=None, payload=None, source=None)
 
 
 # =====================================================================================
+# byte-payload serializers: the combinator model (Spec.de / Spec.ser, through C08's extracted driver) vs the real
+# registered serializers, on accepted NON-CANONICAL payloads
+
+def _payload_driver(ctx):
+    """C08's extracted interpreter (theories/Extract/ExC08.v + c08_driver.ml), built in a private directory"""
+    from harness.common import framework as F
+    ok, log, exe = F.build_driver("C09payload", "theories/Extract/ExC08.v", "c08_driver.ml")
+    if not ok:
+        raise RuntimeError("C08 driver (Spec.ser / Spec.de) did not build: " + log[-600:])
+    return exe
+
+
+def impl_pass(en, payload: bytes, pod: bool):
+    """one decode-encode pass of the REAL registered serializer on one payload, observed for the comparison with the
+    model.  -> ("skip", why) | ("reject",) | ("ok", value, value_sx | None, re-encoded bytes | "EXC:...")"""
+    from harness.props import c08 as C08
+    from harness.translate import c08_specs as S
+    se = _se()
+    ser = en.ser
+    block = make_block(en.key, en.ctxvars)
+    guess = getattr(ser, "_get_target_template", None)
+    if guess is not None:
+        try:
+            if guess(block, payload) is not en.spec:
+                return ("skip", "another template is guessed for this payload")
+        except Exception:
+            return ("skip", "template guess raised")
+    cls = C08._guard_cls()
+    C08._STATE["budget"] = C08.READ_BUDGET
+    C08._STATE["neg"] = False
+    old = se.BufferReader
+    se.BufferReader = cls                 # detects negative byte counts (the real reader seeks backwards: not modelled)
+    try:
+        try:
+            v = _force(ser.deserialize(block, payload, pod=pod))
+            c09_values.canon(v)           # forces every lazy member
+        except C08.Hang:
+            return ("skip", "read budget")
+        except Exception:
+            return ("skip", "negative byte count") if C08._STATE["neg"] else ("reject",)
+    finally:
+        se.BufferReader = old
+    if C08._STATE["neg"]:
+        return ("skip", "negative byte count")
+    if v is se.UNSERIALIZABLE:
+        return ("reject",)
+    try:
+        vsx = S.to_sx(en.node, pod, v)
+    except S.Shape:
+        vsx = None
+    except Exception:
+        vsx = None
+    if guess is not None:
+        try:
+            if guess(block, v) is not en.spec:
+                return ("skip", "another template is guessed for the decoded value")
+        except Exception:
+            return ("skip", "template guess raised")
+    try:
+        b1 = ser.serialize(block, v)
+        b1 = bytes(b1) if isinstance(b1, (bytes, bytearray)) else "EXC:not-bytes"
+    except Exception as ex:
+        b1 = "EXC:" + type(ex).__name__
+    return ("ok", v, vsx, b1)
+
+
+def payload_obs_text(obs, model=None):
+    """one-line observation of a pass: 'reject' | 'accept <value> -> <bytes>' (value omitted when not representable)"""
+    from harness.translate import c08_specs as S
+    if obs[0] != "ok":
+        return obs[0] if obs[0] == "reject" else "skip: " + str(obs[1])
+    b1 = obs[3]
+    return "accept %s -> %s" % (obs[2] if obs[2] is not None else "?", "ERR" if isinstance(b1, str) else S.hb(b1))
+
+
+def model_cases(ctx, en, n_gen, n_pos, n_vals):
+    """payloads for one (key, context) spec tree: own output of generated values, a per-byte sweep of one or two of them
+    (structured non-canonical inputs: presence bytes other than 0/1, unknown enum values and flag bits, lengths, ...),
+    truncations / extensions, and the sizes that select LengthSwitch branches"""
+    rng = ctx.rng
+    gen = c09_values.Gen(rng)
+    block = make_block(en.key, en.ctxvars)
+    produced = []
+    for _ in range(n_gen * 3):
+        if len(produced) >= n_gen:
+            break
+        try:
+            b = en.ser.serialize(block, gen.value(en.spec, {}))
+        except c09_values.Unsupported:
+            break
+        except Exception:
+            continue
+        if isinstance(b, (bytes, bytearray)) and bytes(b) not in produced:
+            produced.append(bytes(b))
+    for b in produced:
+        yield b, "generated"
+    bases = sorted(set(produced), key=lambda x: (-len(x), x))[:2]
+    if not bases:
+        se = _se()
+        try:
+            n = en.spec.calc_size()
+        except Exception:
+            n = None
+        bases = [bytes(n)] if isinstance(n, int) else []
+    noncanon = not en.canon          # trees with non-canonical inputs: every position, presence-like bytes always included
+    if noncanon:
+        for b in produced:
+            if b:
+                yield b[:-1], "truncated"          # e.g. a final C string without its terminator
+                yield b[:-1] + bytes((rng.randrange(1, 256),)), "mutated"
+    for base in bases:
+        n = len(base)
+        cap = max(n_pos, 96) if noncanon else n_pos
+        positions = list(range(n)) if n <= cap else sorted(rng.sample(range(n), cap))
+        for pos in positions:
+            vals = set(rng.sample(SWEEP_BYTES, min(n_vals, len(SWEEP_BYTES)))) | {2, rng.randrange(256)}
+            if noncanon:
+                vals |= {0, 1, 0xFF}
+            for bv in sorted(vals):
+                if base[pos] != bv:
+                    yield base[:pos] + bytes((bv,)) + base[pos + 1:], "sweep"
+        if n:
+            yield base[:-1], "truncated"
+            yield base[:n // 2], "truncated"
+        yield base + b"\x00", "extended"
+        yield base + bytes((rng.randrange(1, 256),)), "extended"
+        for _ in range(n_vals):
+            yield mutate(rng, base), "mutated"
+    yield b"", "empty"
+    se = _se()
+    if isinstance(en.spec, se.LengthSwitch):
+        for k in en.spec._choice_specs:
+            if isinstance(k, int):
+                yield bytes(k), "sized"
+                yield bytes(rng.randrange(256) for _ in range(k)), "sized"
+
+
+def corr_payload_model(ctx, reg):
+    from harness.common import framework as F
+    from harness.translate import c08_specs as S
+    res = CorrResult(suite="byte-payload serializers: one decode-encode pass, real registered serializer vs the combinator model "
+                           "(Spec.de then Spec.ser, extracted)",
+                     rule="for every (registered byte-payload key, context value) whose spec tree is translated to a Spec term "
+                          "(harness/translate/c09_payload.py; inside AND outside the proved fragment): payloads = the serializer's own "
+                          "output on values generated from its spec, a per-byte sweep of those (positions x boundary bytes 00 01 02 7F 80 "
+                          "FC..FF + a random byte: presence bytes other than 0/1, unknown enum values / flag bits, wrong lengths), "
+                          "truncations, extensions, random mutations, the empty payload and the sizes selecting LengthSwitch branches; each "
+                          "in object and plain-data form through (a) ser.deserialize(block, payload) / ser.serialize(block, value) of the "
+                          "REAL registered serializer with the Block holding the context value and (b) the extracted Spec.de (little "
+                          "endian, root context, accepted iff no byte is left = CHECK_TRAILING_BYTES; EMPTY_IS_NONE applied as in "
+                          "SpecSound.simple_decode) followed by Spec.ser on the value the MODEL decoded.  Compared: accepted or not, the "
+                          "decoded value (spec-directed translation of the Python value; NaN matches any NaN pattern), the re-encoded "
+                          "bytes (skipped when the value holds a NaN: CPython quiets signalling NaNs, the model keeps float bits).  "
+                          "Skipped (counted): payloads making the real reader seek backwards (negative byte count), TransferInfo payloads "
+                          "for which the size-based guess picks another template.  non-trivial = accepted payloads that are NOT their own "
+                          "re-encoding or that were not produced by the serializer itself")
+    ents = [en for en in c09_payload.entries(reg) if en.node is not None]
+    n_gen, n_pos, n_vals = ctx.pick(3, 12), ctx.pick(10, 400), ctx.pick(2, 6)
+    cases = []        # (entry, payload, origin, pod, impl observation)
+    dist = {}
+    seen_tree = {}
+
+    def bump(k, n=1):
+        dist[k] = dist.get(k, 0) + n
+
+    for en in ents:
+        sx = S.sexp(en.node)
+        tkey = (sx, en.empty_none, id(en.ser) if getattr(en.ser, "_get_target_template", None) else 0)
+        first = tkey not in seen_tree          # several keys / context values share one tree (e.g. the two TypeData keys)
+        seen_tree[tkey] = True
+        seen = set()
+        try:
+            stream = list(model_cases(ctx, en, n_gen if first else 1, n_pos if first else 4, n_vals))
+        except Exception as ex:
+            ctx.notes.append("payload model suite: case generator failed for %s: %s" % (en.label, type(ex).__name__))
+            continue
+        for payload, origin in stream:
+            if payload in seen:
+                continue
+            seen.add(payload)
+            for pod in (False, True):
+                if en.empty_none and payload == b"":
+                    bump("EMPTY_IS_NONE shortcut (b'' <-> None, no template involved)")
+                    continue
+                obs = impl_pass(en, payload, pod)
+                if obs[0] == "skip":
+                    bump("skipped: " + obs[1])
+                    continue
+                cases.append((en, sx, payload, origin, pod, obs))
+    exe = _payload_driver(ctx)
+    try:
+        lines = ["de < %d %s %s" % (int(pod), sx, S.hb(payload)) for en, sx, payload, origin, pod, obs in cases]
+        out1 = F.run_driver(exe, lines, timeout=900) if lines else []
+        second, idx = [], []
+        for i, ((en, sx, payload, origin, pod, obs), m) in enumerate(zip(cases, out1)):
+            m = m.strip()
+            if m.startswith("OK "):
+                val, left = m[3:].rsplit(" ", 1)
+                if left == "0":
+                    if en.empty_none and val.strip() == "( none )":
+                        continue                      # simple_encode: None is written as b"" without the template
+                    idx.append(i)
+                    second.append("ser < %s %s" % (sx, val))
+        out2 = F.run_driver(exe, second, timeout=900) if second else []
+    finally:
+        import shutil
+        shutil.rmtree(os.path.dirname(exe), ignore_errors=True)
+    ser_of = dict(zip(idx, out2))
+    nontriv = 0
+    per_key = {}
+    for i, ((en, sx, payload, origin, pod, obs), m) in enumerate(zip(cases, out1)):
+        m = m.strip()
+        st = per_key.setdefault(en.label, [0, 0])
+        st[0] += 1
+        m_acc, m_val, m_b = False, None, None
+        if m.startswith("OK "):
+            m_val, left = m[3:].rsplit(" ", 1)
+            m_val = m_val.strip()
+            m_acc = left == "0"
+        if m_acc:
+            m_b = "OK -" if (en.empty_none and m_val == "( none )") else ser_of.get(i, "?").strip()
+        model_obs = "reject" if not m_acc else "accept %s -> %s" % (m_val, m_b[3:] if m_b.startswith("OK ") else "ERR")
+        info = {"key": en.keytxt, "ctx": en.ctxvars, "pod": pod, "payload": payload.hex(), "origin": origin,
+                "in_fragment": en.inside, "model_obs": model_obs[:1500], "impl_obs": payload_obs_text(obs)[:1500]}
+        if not m.startswith(("OK ", "ERR")):
+            res.disagreements.append(dict(info, what="model driver could not run the case", model=m[:200]))
+            continue
+        if obs[0] == "reject":
+            bump("rejected by both" if not m_acc else "rejected by impl only")
+            if m_acc:
+                res.disagreements.append(dict(info, what="accepted by the model, rejected by the implementation", model=m[:300],
+                                              impl="rejected"))
+            continue
+        _, v, vsx, b1 = obs
+        if not m_acc:
+            bump("accepted by impl only")
+            res.disagreements.append(dict(info, what="accepted by the implementation, rejected by the model", model=m[:300],
+                                          impl=(vsx or repr(v))[:300]))
+            continue
+        st[1] += 1
+        bump("accepted by both: " + origin)
+        if vsx is None:
+            bump("decoded value not representable in the model's value language (value not compared)")
+        elif not S.same_value(vsx, m_val):
+            res.disagreements.append(dict(info, what="decoded value", model=m_val[:400], impl=vsx[:400]))
+            continue
+        i_b = "ERR" if isinstance(b1, str) else "OK " + S.hb(b1)
+        if vsx is not None and "nan" in vsx:
+            bump("re-encoded bytes not compared (NaN)")
+            continue
+        if i_b != ("ERR" if m_b.startswith("ERR") else m_b):
+            res.disagreements.append(dict(info, what="re-encoded bytes", model=m_b[:400],
+                                          impl=(b1 if isinstance(b1, str) else i_b)[:400], model_value=m_val[:300]))
+            continue
+        if not isinstance(b1, str) and (b1 != payload or origin != "generated"):
+            nontriv += 1
+        if not isinstance(b1, str) and b1 != payload:
+            bump("accepted NON-CANONICAL payloads (re-encoding differs from the input)")
+            if en.inside and en.canon:
+                res.disagreements.append(dict(info, what="a payload of a spec proved canonical is not its own re-encoding",
+                                              model=m_b[:300], impl=i_b[:300]))
+    res.evaluations = len(cases) + len(second)
+    res.distinct_nontrivial = nontriv
+    dist["spec trees (key, context)"] = len(ents)
+    dist["~ per (key, context): cases/accepted"] = "; ".join("%s %d/%d" % (k, a[0], a[1]) for k, a in sorted(per_key.items()))[:6000]
+    res.distribution = dist
+    res.samples = [{"key": en.label, "pod": pod, "payload": payload.hex()[:80], "origin": origin, "model": m[:100]}
+                   for (en, sx, payload, origin, pod, obs), m in list(zip(cases, out1))[:: max(1, len(cases) // 5)][:5]]
+    del res.disagreements[40:]
+    return res
+
+
+# =====================================================================================
 # date fields per time zone
 
 ZONES = ("UTC", "America/New_York")
@@ -954,6 +1308,11 @@ def corr_dates(ctx, reg):
 
 # =====================================================================================
 
+def correspond_te(ctx):
+    """B5: extracted TextureEntry framing model vs TEFaceBitfield / TEExceptionField / TE_SERIALIZER / registered wrappers"""
+    return c09_te.correspond_te(ctx)
+
+
 def correspond(ctx):
     reg = c09_registry.load()
     out = [corr_registry(ctx, reg)]
@@ -963,7 +1322,8 @@ def correspond(ctx):
     POD_VALUES.clear()
     PURITY_STATS.clear()
     POD_CAP[0] = ctx.pick(4000, 80000)
-    out += [corr_ints(ctx, reg), corr_literals(ctx), corr_bytes(ctx, reg), corr_dates(ctx, reg)]
+    out += [corr_ints(ctx, reg), corr_literals(ctx), corr_bytes(ctx, reg), corr_payload_model(ctx, reg), corr_dates(ctx, reg)]
+    out += correspond_te(ctx)       # B5
     summary = {}
     for r in out:
         for v in r.impl_violations:
@@ -1015,6 +1375,8 @@ def _entry_by_key(reg, keytxt):
 def replay(ctx, case):
     reg = c09_registry.load()
     kind = case.get("kind")
+    if str(kind).startswith("te"):      # B5
+        return c09_te.replay(ctx, case)
     if kind == "date":
         r = run_dates(ctx, case["tz"], 0, explicit=(case["key"], case["z"]))
         bad = [v for v in r["violations"] if v["pod"] == case.get("pod", v["pod"])]
@@ -1051,6 +1413,23 @@ def replay(ctx, case):
         raw = bytes.fromhex(case["payload"]) if "payload" in case else int(case["z"])
         st, bad = check_purity(e.serializer, raw, bool(case["pod"]), key=e.key, ctxvars=case.get("ctx") or {}, full=True)
         return (st == "bad"), (bad or st)
+    if kind == "payload-model":
+        # a model / implementation disagreement on one decode-encode pass: first the property's own clauses on the
+        # implementation, then the implementation's observation against the recorded observation of the model
+        payload = bytes.fromhex(case["payload"])
+        st, bad = check_payload(e.serializer, block, payload, bool(case["pod"]), produced=(case.get("origin") == "generated"))
+        if st == "bad":
+            return True, bad
+        en = None
+        for x in c09_payload.entries(reg):
+            if x.keytxt == case["key"] and x.ctxvars == (case.get("ctx") or {}) and x.node is not None:
+                en = x
+                break
+        if en is None:
+            return False, "no translated spec tree for this key / context any more"
+        obs = impl_pass(en, payload, bool(case["pod"]))
+        now = payload_obs_text(obs)
+        return (now != case.get("model_obs")), "implementation: %s; model (recorded): %s" % (now, case.get("model_obs"))
     if kind == "int-model":
         # a model/implementation disagreement on an integer case: report what the implementation does
         t = impl_roundtrip_text(e.serializer, block, int(case["z"]), bool(case["pod"]))
@@ -1062,6 +1441,13 @@ def replay(ctx, case):
 def search(ctx, hints):
     """impl-level oracle: first failing case of the property on the implementation"""
     reg = c09_registry.load()
+    for h in hints:                     # B5: a TextureEntry model/implementation difference is its own concrete case
+        d = h.get("disagreement")
+        if d and str(d.get("kind", "")).startswith("te"):
+            d = dict(d)
+            d.setdefault("class", "te-model:" + str(d.get("what", "")).replace(" ", "-"))
+            d.setdefault("clause", "the TextureEntry codec does what the proved framing model computes (" + str(d.get("what")) + ")")
+            return d
     for h in hints:
         d = h.get("disagreement")
         if d and isinstance(d.get("z"), int) and not str(d.get("key", "")).startswith("synthetic"):
@@ -1072,6 +1458,26 @@ def search(ctx, hints):
                 if bad:
                     return {"kind": "int", "class": "int-lossy", "clause": bad[0], "got": bad[1], "key": d["key"],
                             "ctx": d.get("ctx") or {}, "pod": bool(d["pod"]), "z": d["z"]}
+    for h in hints:
+        d = h.get("disagreement")
+        if d and "payload" in d and "key" in d:
+            e = _entry_by_key(reg, d["key"])
+            if e is None:
+                continue
+            block = make_block(e.key, d.get("ctx") or {})
+            st, bad = check_payload(e.serializer, block, bytes.fromhex(d["payload"]), bool(d["pod"]),
+                                    produced=(d.get("origin") == "generated"))
+            if st == "bad":
+                return shrink_case(ctx, reg, {"kind": "bytes", "class": classify_bytes(d["key"], bad[0], e.serializer, block,
+                                                                                       bytes.fromhex(d["payload"]), None),
+                                              "clause": bad[0], "detail": bad[1], "key": d["key"], "ctx": d.get("ctx") or {},
+                                              "pod": bool(d["pod"]), "payload": d["payload"], "origin": d.get("origin")})
+            return {"kind": "payload-model", "class": "payload-model:" + str(d.get("what", "")).replace(" ", "-"),
+                    "clause": "one decode-encode pass of the registered serializer is what the proved combinator model computes (" +
+                              str(d.get("what")) + ")",
+                    "key": d["key"], "ctx": d.get("ctx") or {}, "pod": bool(d["pod"]), "payload": d["payload"],
+                    "origin": d.get("origin"), "model_obs": d.get("model_obs"), "impl_obs": d.get("impl_obs"),
+                    "model": d.get("model"), "impl": d.get("impl")}
     v = search_ints(ctx, reg)
     if v:
         return v
